@@ -133,6 +133,8 @@ def ops_for(models, depth_left, tier_small):
             out.append((d, o))
         for si in range(len(SUBS)):
             out.append(("choose", o, si))
+            if si < 2:
+                out.append(("choose-iter", o, si))     # the same selection handed over as a one-shot iterator
             if all(p in m.db for p in SUBS[si]):
                 out.append(("choose_copy", o, si))
     return out
@@ -169,10 +171,10 @@ def m_step(models, op, defect, order=None):
         nm = M({}, {}, new)
         for p in (order if order is not None else list(m.db)):
             m_insert(nm, p, {facet(x) for x in m.db[p]}, defect)
-    elif t in ("choose", "choose_copy"):
+    elif t in ("choose", "choose_copy", "choose-iter"):
         sub = SUBS[op[2]]
-        db = {p: (m.db[p] if t == "choose" else set(m.db[p])) for p in sub if p in m.db}
-        nm = M(db, m_rev(db), m.group if t == "choose" else new)
+        db = {p: (m.db[p] if t != "choose_copy" else set(m.db[p])) for p in sub if p in m.db}
+        nm = M(db, m_rev(db), m.group if t != "choose_copy" else new)
     elif t in ("fp", "fpc"):
         db = {p: (m.db[p] if t == "fp" else set(m.db[p])) for p in m.db if pred_p(p)}
         nm = M(db, m_rev(db), m.group if t == "fp" else new)
@@ -208,6 +210,8 @@ def i_step(objs, op):
         n = o.facet_collection()
     elif t == "choose":
         n = o.choose_packages(SUBS[op[2]])
+    elif t == "choose-iter":
+        n = o.choose_packages(iter(SUBS[op[2]]))
     elif t == "choose_copy":
         n = o.choose_packages_copy(SUBS[op[2]])
     elif t == "fp":
@@ -310,6 +314,44 @@ def judge(fi, tag_filter, hist, check_from=0):
     return "violation", None, best
 
 
+READ_KINDS = ("list", "tuple", "generator", "stringio", "file")
+
+
+def read_kind(fi, tag_filter, kind):
+    import io
+    import tempfile
+    from debian.debtags import DB
+    lines = FILES[fi]
+    d = DB()
+    tmp = None
+    try:
+        if kind == "list":
+            src = list(lines)
+        elif kind == "tuple":
+            src = tuple(lines)
+        elif kind == "generator":
+            src = (l for l in lines)
+        elif kind == "stringio":
+            src = io.StringIO("".join(lines))
+        else:
+            tmp = tempfile.TemporaryFile("w+", encoding="utf-8")
+            tmp.write("".join(lines))
+            tmp.seek(0)
+            src = tmp
+        try:
+            if tag_filter:
+                d.read(src, tag_filter=pred_t)
+            else:
+                d.read(src)
+        except Exception as e:
+            return ("raises", "read succeeds", "%s: %s" % (type(e).__name__, e))
+    finally:
+        if tmp is not None:
+            tmp.close()
+    mdb = parse_file(lines, tag_filter)
+    return observe(d, M(mdb, m_rev(mdb), 0), True)
+
+
 def units(tier, seed):
     out = []
     for fi in range(len(FILES)):
@@ -360,6 +402,14 @@ def run_unit(u, tier, seed):
     if bad0:
         part.violation("debtags/read/%s" % bad0[1], dict(base, history=[]), bad0[2], bad0[3], rank=0)
         return part
+    if u["first"] == ops_for([M(parse_file(FILES[fi], tf), m_rev(parse_file(FILES[fi], tf)), 0)], 9, False)[0]:
+        # once per (file, filter): the same lines supplied as the other kinds of line source read() accepts
+        for kind in READ_KINDS:
+            bad = read_kind(fi, tf, kind)
+            part.evaluations += 1
+            part.traces += 1
+            if bad:
+                part.violation("debtags/read-%s/%s" % (kind, bad[0]), dict(base, history=[], read_kind=kind), bad[1], bad[2], rank=0)
     rec([tuple(u["first"])], False)
     part.max_depth = depth
     part.sample(dict(base, history=[tuple(u["first"]), ("copy", 0)]))
@@ -367,6 +417,9 @@ def run_unit(u, tier, seed):
 
 
 def replay(case):
+    if case.get("read_kind"):
+        bad = read_kind(case["file"], case["tag_filter"], case["read_kind"])
+        return [("debtags/read-%s/%s" % (case["read_kind"], bad[0]), bad[1], bad[2])] if bad else []
     hist = [tuple(op) for op in case["history"]]
     verdict, _m, detail = judge(case["file"], case["tag_filter"], hist, 0)
     if verdict == "ok":
